@@ -2,6 +2,7 @@ package sym
 
 import (
 	"bufio"
+	"sync"
 	"fmt"
 	"io"
 	"os"
@@ -29,13 +30,16 @@ type Solver struct {
 	Seed      int
 	cmd       *exec.Cmd
 	in        *bufio.Writer
-	out       *bufio.Reader
+	out       *linePump
 	gen       int
 	depth     int
 	declared  map[*Term]bool // variables declared in this generation
 	Stats     SolverStats
 	log       io.Writer
 	sawError  bool
+	frames    [][]*Term // local assertion stack; frames[0] is the base level
+	sentLits  []int     // per frame: number of literals already sent
+	sentDepth int       // frames 1..sentDepth are pushed in the solver
 }
 
 type SolverStats struct {
@@ -85,9 +89,16 @@ func (s *Solver) start() error {
 	}
 	s.cmd = cmd
 	s.in = bufio.NewWriterSize(stdin, 1<<16)
-	s.out = bufio.NewReaderSize(stdout, 1<<16)
+	s.out = newLinePump(stdout)
 	s.gen++ // a term table belongs to exactly one solver; gen invalidates definitions on restart
-	s.depth = 0
+	s.sentDepth = 0
+	if s.frames == nil {
+		s.frames = [][]*Term{nil}
+		s.sentLits = []int{0}
+	}
+	for i := range s.sentLits {
+		s.sentLits[i] = 0
+	}
 	s.declared = map[*Term]bool{}
 	if s.Kind == "cvc5" {
 		s.send("(set-logic ALL)")
@@ -185,14 +196,25 @@ func (s *Solver) define(t *Term) {
 	}
 }
 
+// The assertion stack is kept locally and sent to the solver lazily, right
+// before a check-sat: paths that are decided entirely by the front solver
+// cause no solver traffic at all, and a restarted solver is re-synchronised
+// from the local stack.
+
 func (s *Solver) Push() {
-	s.send("(push 1)")
+	s.frames = append(s.frames, nil)
+	s.sentLits = append(s.sentLits, 0)
 	s.depth++
 }
 
 func (s *Solver) PopTo(depth int) {
 	if depth < s.depth {
-		s.send(fmt.Sprintf("(pop %d)", s.depth-depth))
+		s.frames = s.frames[:depth+1]
+		s.sentLits = s.sentLits[:depth+1]
+		if s.sentDepth > depth {
+			s.send(fmt.Sprintf("(pop %d)", s.sentDepth-depth))
+			s.sentDepth = depth
+		}
 		s.depth = depth
 	}
 }
@@ -203,8 +225,23 @@ func (s *Solver) Assert(t *Term) {
 	if t.IsTrue() {
 		return
 	}
-	s.define(t)
-	s.send(fmt.Sprintf("(assert %s)", t.ref()))
+	s.frames[s.depth] = append(s.frames[s.depth], t)
+}
+
+// sync sends the not yet transmitted part of the assertion stack.
+func (s *Solver) sync() {
+	for i := 0; i <= s.depth; i++ {
+		if i > s.sentDepth {
+			s.send("(push 1)")
+			s.sentDepth = i
+		}
+		fr := s.frames[i]
+		for j := s.sentLits[i]; j < len(fr); j++ {
+			s.define(fr[j])
+			s.send(fmt.Sprintf("(assert %s)", fr[j].ref()))
+		}
+		s.sentLits[i] = len(fr)
+	}
 }
 
 // Check runs check-sat under the current assertions plus the extra literals.
@@ -215,6 +252,7 @@ func (s *Solver) Check(extra ...*Term) Result {
 
 // CheckModel is Check that also returns the values of vars when sat.
 func (s *Solver) CheckModel(vars []*Term, extra ...*Term) (Result, Model) {
+	s.sync()
 	if len(extra) > 0 {
 		s.send("(push 1)")
 		for _, e := range extra {
@@ -407,4 +445,59 @@ func tokenize(s string) []string {
 	}
 	flush()
 	return toks
+}
+
+// linePump reads the solver's output in its own goroutine so that the solver
+// never blocks on a full pipe while we are still writing commands.
+type linePump struct {
+	mu    sync.Mutex
+	cond  *sync.Cond
+	lines []string
+	err   error
+}
+
+func newLinePump(r io.Reader) *linePump {
+	p := &linePump{}
+	p.cond = sync.NewCond(&p.mu)
+	go func() {
+		br := bufio.NewReaderSize(r, 1<<16)
+		for {
+			line, err := br.ReadString('\n')
+			p.mu.Lock()
+			if line != "" {
+				p.lines = append(p.lines, line)
+			}
+			if err != nil {
+				p.err = err
+				p.mu.Unlock()
+				p.cond.Broadcast()
+				return
+			}
+			p.mu.Unlock()
+			p.cond.Broadcast()
+		}
+	}()
+	return p
+}
+
+func (p *linePump) ReadString(delim byte) (string, error) {
+	p.mu.Lock()
+	defer p.mu.Unlock()
+	for len(p.lines) == 0 {
+		if p.err != nil {
+			return "", p.err
+		}
+		p.cond.Wait()
+	}
+	l := p.lines[0]
+	p.lines = p.lines[1:]
+	return l, nil
+}
+
+// ResetBase drops the base-level assertions (used when the term table is
+// replaced).
+func (s *Solver) ResetBase() {
+	s.frames = [][]*Term{nil}
+	s.sentLits = []int{0}
+	s.depth = 0
 }
